@@ -122,7 +122,9 @@ func (x *fnCtx) newTopState() (*State, *Frame) {
 }
 
 func (x *fnCtx) assumeRequires(st *State, fr *Frame) {
-	env := &specEnv{x: x, st: st, heap: st.heap, old: fr.oldHeap, names: x.paramNames(fr), fr: fr}
+	// references that the preconditions read from the entry heap are nil or allocated at entry
+	// (heap closure, as for the loads of the program itself)
+	env := &specEnv{x: x, st: st, heap: st.heap, old: fr.oldHeap, names: x.paramNames(fr), fr: fr, closed: true}
 	if !x.eng.axiomsDone {
 		x.eng.axiomsDone = true
 		for _, ax := range x.eng.db.Axioms {
@@ -219,8 +221,11 @@ func (x *fnCtx) startAtHeader(st *State, fr *Frame, h *ssa.BasicBlock, ord int) 
 		st.heap = &Heap{m: map[string]*Term{}, epoch: epochCounter}
 		if alloc != nil {
 			st.heap.m["$alloc"] = alloc
-			epochAlloc[epochCounter] = alloc
 		}
+		// objects may have been allocated before the header is reached (earlier code, earlier
+		// iterations): the allocation set at the header is an unknown superset of the entry's
+		x.growAlloc(st, x.con.Allocates, true)
+		epochAlloc[epochCounter] = st.heap.m["$alloc"]
 		// immutable / stable fields that this function does not write keep their entry value
 		_ = oldh // immutable / stable components resolve to their entry symbol in Heap.get;
 		// those written by this function are unknown at the header
